@@ -496,3 +496,48 @@ def d6(ctx):
 
 
 RULES.append(d6)
+
+
+@rule("D7", doc="payload types round-trip through their text: to_syntax is [String(self.to_string())] and from_syntax accepts exactly a single String element and answers parse() of it — no further condition on the text (a guard that suits the integer types, such as 'no leading +', silently rejects the symbol `+`)", once=True)
+def d7(ctx):
+    crate = ctx.lib("default")
+    n = 0
+    for b in crate.fns():
+        if b.name != "from_syntax" or not (b.impl_trait or "").endswith("LanguageChildren") or b.kind == "Closure" or not (b.file or "").endswith("lang.rs"):
+            continue
+        ps = [c for c in b.calls if c.callee and c.callee.name == "parse" and "str" in (c.callee.target or "") and not b.blocks[c.bb]["cleanup"]]
+        if not ps:
+            continue            # Slot / AppliedId / Bind / Vec: structured children, not payload text
+        n += 1
+        extra = []
+        for c in ps:
+            for e, cond in C.conditions_at(b, c.bb):
+                r = strip_role(cond[1]) if len(cond) > 1 else None
+                if isinstance(r, tuple) and r[0] == "discr":
+                    continue                # the element is a SyntaxElem::String
+                if isinstance(r, tuple) and r[0] == "bin" and "PtrMetadata" in role_str(r):
+                    continue                # the slice has one element
+                if isinstance(r, tuple) and r[0] == "call" and r[1] in ("len", "is_empty"):
+                    continue
+                if cond[0] in ("eq", "ne") and any("len(" in role_str(x) or "PtrMetadata" in role_str(x) for x in cond[1:]):
+                    continue
+                extra.append("%s %s" % (cond[0], role_str(r)[:60] if r is not None else ""))
+        ctx.check(not extra, "payload-from-syntax-unguarded:" + (b.impl_self or "?"), "from_syntax of %s parses the single text element without further conditions" % b.impl_self,
+                  "from_syntax of the payload type %s puts a condition on the text in front of parse() (%s): values whose printed form meets it no longer read back — to_syntax / from_syntax do not round-trip, and terms containing such a payload do not parse" % (b.impl_self, "; ".join(extra)), where_of(b))
+        ret_ok = any(role_mentions_call(b.role_of_rvalue(d["rv"]) if d["kind"] == "assign" else ("call", d["call"].callee.name, "", [b.role_of_operand(a) for a in d["call"].args], d["bb"]), "parse") for d in b.defs().get(0, []))
+        ctx.check(ret_ok, "payload-from-syntax-is-parse:" + (b.impl_self or "?"), "from_syntax answers parse() of the element", "from_syntax of %s does not answer with parse() of the text" % b.impl_self, where_of(b))
+    ctx.floor("payload types with a text form", n, 5)
+    m = 0
+    for b in crate.fns():
+        if b.name != "to_syntax" or not (b.impl_trait or "").endswith("LanguageChildren") or b.kind == "Closure" or not (b.file or "").endswith("lang.rs"):
+            continue
+        ts = [c for c in b.calls if c.callee and c.callee.name == "to_string" and not b.blocks[c.bb]["cleanup"]]
+        if not ts:
+            continue
+        m += 1
+        ok = all(strip_role(b.role_of_operand(c.args[0])) == ("param", "self") for c in ts) and len(ts) == 1
+        ctx.check(ok, "payload-to-syntax:" + (b.impl_self or "?"), "to_syntax prints the value itself", "to_syntax of %s does not print the value itself (%s)" % (b.impl_self, [role_str(b.role_of_operand(c.args[0])) for c in ts]), where_of(b))
+    ctx.floor("payload printers", m, 5)
+
+
+RULES.append(d7)
